@@ -3345,6 +3345,11 @@ namespace bloch::runtime {
                     } else if (name == "cx") {
                         ensureQubitActive(args[0].qubit, callExpr->line, callExpr->column);
                         ensureQubitActive(args[1].qubit, callExpr->line, callExpr->column);
+                        if (args[0].qubit == args[1].qubit)
+                            throw BlochError(ErrorCategory::Runtime, callExpr->line,
+                                             callExpr->column,
+                                             "cx needs two distinct qubits: control and target are "
+                                             "the same qubit");
                         m_sim.cx(args[0].qubit, args[1].qubit);
                     }
                     return {};  // void
